@@ -52,6 +52,7 @@ def meta_of(step, t, sent_has_delay=True):
 
 class C10(InterpProp):
     id = 'C10'
+    anomaly_tags = ('meta', 'macro')
     # observables compared with the model (see InterpProp.normalize)
     cmp_eff = ('meta',)
     cmp_step = ()
@@ -123,6 +124,15 @@ class C10(InterpProp):
             if ra['outcome'] == 'error' and ra['err']['class'] != 'PropertyStatechartError':
                 clean = False
                 continue
+            # within one micro step the events are sent (and announced) in the order of the code that sends them
+            if rb['outcome'] == 'step':
+                for m in rb['step']['steps']:
+                    want = oracles.sent_in_source_order(sc, trans, m)
+                    got = [('send' if e['internal'] else 'notify', e['event']['ev']) for e in m['sent']]
+                    if want is not None and got != want:
+                        res.violations.append('op %d: events sent by one micro step come in the order %s, the code sends them '
+                                              'in the order %s' % (i, got, want))
+                        return
             # position at which the property must fire
             pos = None
             c = count
